@@ -198,15 +198,22 @@ theorem ctfTR_link (g : MG Name) (hg : g.WF) (o c : Event)
       exact ⟨p, by rcases List.mem_append.1 hp with h | h <;> simp [h], rfl⟩
     · rintro ⟨p, hp, rfl⟩
       exact ⟨p, by rcases List.mem_append.1 hp with h | h <;> simp [h], rfl⟩
-  have hOnames : ∀ n, n ∈ (rootItems ν o).map (·.1) ↔ ∃ p ∈ o, p.1.name = n := by
+  -- the outcomes over vertices that no condition names, and the others (redundant)
+  set oN := o.filter (fun p => decide (p.1.name ∉ eventNames c)) with hoN
+  set oX := o.filter (fun p => decide (p.1.name ∈ eventNames c)) with hoX
+  have hOnames : ∀ n, n ∈ (rootItems ν oN).map (·.1) ↔ (∃ p ∈ o, p.1.name = n) ∧ n ∉ eventNames c := by
     intro n
     rw [rootItems_names, List.mem_map]
-  have hOinD : ∀ n, n ∈ (rootItems ν o).map (·.1) → n ∈ ND ∧ n ∉ eventNames c := by
+    constructor
+    · rintro ⟨p, hp, rfl⟩
+      rw [hoN, List.mem_filter, decide_eq_true_eq] at hp
+      exact ⟨⟨p, hp.1, rfl⟩, hp.2⟩
+    · rintro ⟨⟨p, hp, rfl⟩, hn⟩
+      exact ⟨p, by rw [hoN, List.mem_filter, decide_eq_true_eq]; exact ⟨hp, hn⟩, rfl⟩
+  have hOinD : ∀ n, n ∈ (rootItems ν oN).map (·.1) → n ∈ ND ∧ n ∉ eventNames c := by
     intro n hn
-    obtain ⟨p, hp, rfl⟩ := (hOnames n).1 hn
-    refine ⟨L.outcome_in_dstar p hp, fun hc => ?_⟩
-    obtain ⟨q, hq, hqn⟩ := (mem_eventNames c _).1 hc
-    exact cls.disj p hp q hq hqn.symm
+    obtain ⟨⟨p, hp, rfl⟩, hnc⟩ := (hOnames n).1 hn
+    exact ⟨L.outcome_in_dstar p hp, hnc⟩
   have hflat : ∀ n, (n ∈ ND ∨ n ∈ NR) → ∃ a ∈ comps.flatten, a.name = n := by
     intro n hn
     obtain ⟨C, hC, v, hv, hvn⟩ := (L.item_names n).1 ((L.names_split n).1 hn)
@@ -230,16 +237,39 @@ theorem ctfTR_link (g : MG Name) (hg : g.WF) (o c : Event)
       intro n h1 h2
       exact L.names_disjoint n (mem_diff'.1 h1).1 (mem_diff'.1 h2).1
   -- the hypotheses of `cond_parts`
-  have hR : ∀ j, j ∈ rootItems ν (o ++ c) ↔ j ∈ rootItems ν o ∨ j ∈ rootItems ν c := by
+  have hR : ∀ j, j ∈ rootItems ν (o ++ c) ↔ j ∈ rootItems ν oN ∨ j ∈ rootItems ν oX ++ rootItems ν c := by
     intro j
     unfold rootItems
-    rw [List.map_append, List.mem_append]
-  have hOn : ((rootItems ν o).map (·.1)).Nodup := by rw [rootItems_names]; exact cls.outNodup
-  have hOc : ∀ j ∈ rootItems ν c, j.1 ∉ (rootItems ν o).map (·.1) := by
+    rw [List.map_append, List.mem_append, List.mem_append]
+    simp only [List.mem_map]
+    constructor
+    · rintro (⟨p, hp, rfl⟩ | ⟨p, hp, rfl⟩)
+      · by_cases hpc : p.1.name ∈ eventNames c
+        · exact Or.inr (Or.inl ⟨p, by rw [hoX, List.mem_filter, decide_eq_true_eq]; exact ⟨hp, hpc⟩, rfl⟩)
+        · exact Or.inl ⟨p, by rw [hoN, List.mem_filter, decide_eq_true_eq]; exact ⟨hp, hpc⟩, rfl⟩
+      · exact Or.inr (Or.inr ⟨p, hp, rfl⟩)
+    · rintro (⟨p, hp, rfl⟩ | ⟨p, hp, rfl⟩ | ⟨p, hp, rfl⟩)
+      · exact Or.inl ⟨p, (List.mem_filter.1 hp).1, rfl⟩
+      · exact Or.inl ⟨p, (List.mem_filter.1 hp).1, rfl⟩
+      · exact Or.inr ⟨p, hp, rfl⟩
+  have hRxc : ∀ j ∈ rootItems ν c, j ∈ rootItems ν oX ++ rootItems ν c := fun j hj => List.mem_append_right _ hj
+  have hRx : ∀ j ∈ rootItems ν oX ++ rootItems ν c, ∃ k ∈ rootItems ν c, k.1 = j.1 := by
+    intro j hj
+    rcases List.mem_append.1 hj with hj | hj
+    · obtain ⟨p, hp, rfl⟩ := List.mem_map.1 hj
+      rw [hoX, List.mem_filter, decide_eq_true_eq] at hp
+      obtain ⟨q, hq, hqn⟩ := (mem_eventNames c _).1 hp.2
+      exact ⟨(q.1.name, worldOf ν q.1.ivs), List.mem_map.2 ⟨q, hq, rfl⟩, hqn⟩
+    · exact ⟨j, hj, rfl⟩
+  have hOn : ((rootItems ν oN).map (·.1)).Nodup := by
+    rw [rootItems_names]
+    exact cls.outNodup.sublist (List.filter_sublist.map _)
+  have hOc : ∀ j ∈ rootItems ν oX ++ rootItems ν c, j.1 ∉ (rootItems ν oN).map (·.1) := by
     intro j hj hmem
-    obtain ⟨q, hq, rfl⟩ := List.mem_map.1 hj
-    exact (hOinD _ hmem).2 ((mem_eventNames c _).2 ⟨q, hq, rfl⟩)
-  have litO : ∀ i ∈ I, ∀ p ∈ M.pa i.1, ∀ x, forced i.2 p = some x → p ∉ (rootItems ν o).map (·.1) := by
+    obtain ⟨k, hk, hkj⟩ := hRx j hj
+    obtain ⟨q, hq, rfl⟩ := List.mem_map.1 hk
+    exact (hOinD _ hmem).2 ((mem_eventNames c _).2 ⟨q, hq, hkj⟩)
+  have litO : ∀ i ∈ I, ∀ p ∈ M.pa i.1, ∀ x, forced i.2 p = some x → p ∉ (rootItems ν oN).map (·.1) := by
     intro i hi p hp x hx hmem
     obtain ⟨rs, hrs, w, hw, rfl⟩ := (mem_setItems ν _ sets i).1 hi
     obtain ⟨cs, p0, hp0, hpr, _, _, _, _⟩ := L.root rs hrs
@@ -274,7 +304,7 @@ theorem ctfTR_link (g : MG Name) (hg : g.WF) (o c : Event)
       exact (mem_eventNames _ y).2 ⟨q, by simp [hq], hqn⟩
     · exact h2 (hflat y (Or.inr hy.1))
     · exact L.names_disjoint y ((mem_dstarNames comps _ y).2 ⟨C, hC, hw, w', hw', hn'⟩) hy.1
-  have hRi : ∀ x, (x ∈ rD ∨ x ∈ (rootItems ν o).map (·.1)) → x ∉ NR ∧ ∀ v ∈ NR, x ∉ M.pa v := by
+  have hRi : ∀ x, (x ∈ rD ∨ x ∈ (rootItems ν oN).map (·.1)) → x ∉ NR ∧ ∀ v ∈ NR, x ∉ M.pa v := by
     intro x hx
     have hxD : x ∈ ND ∧ x ∉ eventNames c := by
       rcases hx with h | h
@@ -290,8 +320,8 @@ theorem ctfTR_link (g : MG Name) (hg : g.WF) (o c : Event)
     · exact hxD.2 h1
     · exact h2 (hflat x (Or.inl hxD.1))
     · exact L.names_disjoint x hxD.1 ((mem_restNames comps _ x).2 ⟨C', hC', hno, w', hw', hn'⟩)
-  obtain ⟨hnum, hden⟩ := cond_parts hsem hnorm card hcard (rootItems ν o) hR hOn hOc litO ND NR rD rR hN hrange_nd hperm
-    hlat hDi hRi
+  obtain ⟨hnum, hden⟩ := cond_parts hsem hnorm card hcard (rootItems ν oN) (rootItems ν oX ++ rootItems ν c) hR hRxc hRx
+    hOn hOc litO ND NR rD rR hN hrange_nd hperm hlat hDi hRi
   refine ⟨sumVars card rR (localProb M NR) σ, ?_, ?_⟩
   · rw [probEventOpt_eq_roots M ν σ (o ++ c) hvalued hσ.value]
     exact hnum
@@ -299,19 +329,19 @@ theorem ctfTR_link (g : MG Name) (hg : g.WF) (o c : Event)
       (fun p hp => hσ.value p (List.mem_append_right _ hp)), hden]
     congr 1
     -- the range of the denominator
-    have hpermB : (diff' ND (eventNames c)).Perm ((rootItems ν o).map (·.1) ++ rD) := by
+    have hpermB : (diff' ND (eventNames c)).Perm ((rootItems ν oN).map (·.1) ++ rD) := by
       rw [List.perm_ext_iff_of_nodup (nodup_diff' (nodup_dedup' _) _)]
       · intro n
         rw [mem_diff', List.mem_append, hrD, mem_diff']
         constructor
         · rintro ⟨h1, h2⟩
-          by_cases ho : n ∈ (rootItems ν o).map (·.1)
+          by_cases ho : n ∈ (rootItems ν oN).map (·.1)
           · exact Or.inl ho
           · refine Or.inr ⟨h1, fun hco => ?_⟩
             obtain ⟨q, hq, hqn⟩ := (mem_eventNames _ n).1 hco
             rcases List.mem_append.1 hq with hqc | hqo
             · exact h2 ((mem_eventNames c n).2 ⟨q, hqc, hqn⟩)
-            · exact ho ((hOnames n).2 ⟨q, hqo, hqn⟩)
+            · exact ho ((hOnames n).2 ⟨⟨q, hqo, hqn⟩, h2⟩)
         · rintro (h | ⟨h1, h2⟩)
           · exact hOinD n h
           · refine ⟨h1, fun hc => h2 ?_⟩
@@ -320,7 +350,7 @@ theorem ctfTR_link (g : MG Name) (hg : g.WF) (o c : Event)
       · refine List.Nodup.append hOn (nodup_diff' (nodup_dedup' _) _) ?_
         intro n h1 h2
         rw [hrD, mem_diff'] at h2
-        obtain ⟨p, hp, hpn⟩ := (hOnames n).1 h1
+        obtain ⟨⟨p, hp, hpn⟩, _⟩ := (hOnames n).1 h1
         exact h2.2 ((mem_eventNames _ n).2 ⟨p, by simp [hp], hpn⟩)
     rw [sumVars_perm card hpermB]
 
